@@ -29,6 +29,7 @@ class ClassInfo:
         self.assigns: Dict[str, ast.expr] = {}      # class-level NAME = expr
         self.annots: Dict[str, ast.expr] = {}       # class-level NAME: T [= expr]
         self.order: List[str] = []                  # class-level names in source order
+        self.late: set = set()                       # class attributes bound by `Cls.NAME = expr` at module level
         self.setters: Dict[tuple, ast.FunctionDef] = {}   # (property name, 'setter' | 'deleter') -> function
         self.decorators = [ast.unparse(d) for d in node.decorator_list]
         for st in node.body:
@@ -156,6 +157,15 @@ class ModuleInfo:
             elif isinstance(st, ast.AnnAssign) and not prefix and isinstance(st.target, ast.Name) \
                     and st.value is not None:
                 self.constants[st.target.id] = st.value
+            elif isinstance(st, ast.Assign) and not prefix and len(st.targets) == 1 and isinstance(st.targets[0], ast.Attribute) \
+                    and isinstance(st.targets[0].value, ast.Name) and st.targets[0].value.id in self.classes:
+                # `Cls.NAME = expr` at module level, after the class statement: a class attribute bound once at import time (evaluated in module scope)
+                ci_ = self.classes[st.targets[0].value.id]
+                if st.targets[0].attr not in ci_.assigns and st.targets[0].attr not in ci_.methods:
+                    ci_.assigns[st.targets[0].attr] = st.value
+                    ci_.late.add(st.targets[0].attr)
+                    if st.targets[0].attr not in ci_.order:
+                        ci_.order.append(st.targets[0].attr)
             elif isinstance(st, ast.ImportFrom) and not prefix:
                 base = self._resolve_from(st)
                 for a in st.names:
